@@ -582,7 +582,14 @@ class PrecipitateModel (PrecipitateBase):
             growthRate = np.zeros(self.PBM[p].bins + 1)
             return growthRate, xEqAlpha, xEqBeta
 
-        growth_result = self.therm.getGrowthAndInterfacialComposition(xComp, T, dGs[p] * self.precipitateParameters[p].volume.Vm, self.PBM[p].PSDbounds, self.particleGibbs(phase=self.precipitateParameters[p].phase), precPhase=self.precipitateParameters[p].phase, removeCache=self.removeCache, searchDir = self._precBetaTemp[p])
+        #The driving force in Y is net of the elastic strain energy, which is also part of the Gibbs-Thomson contribution
+        #Add it back so the strain energy is not counted twice in the growth rate (growth rate should be zero at the critical radius)
+        precParams = self.precipitateParameters[p]
+        aspectRatio = precParams.shapeFactor.aspectRatio(self.pData.Rcrit[self.pData.n, p])
+        strainEnergy = precParams.strainEnergy.compute(precParams.shapeFactor.description.normalRadii(aspectRatio))
+        chemDG = (dGs[p] + strainEnergy) * precParams.volume.Vm
+
+        growth_result = self.therm.getGrowthAndInterfacialComposition(xComp, T, chemDG, self.PBM[p].PSDbounds, self.particleGibbs(phase=self.precipitateParameters[p].phase), precPhase=self.precipitateParameters[p].phase, removeCache=self.removeCache, searchDir = self._precBetaTemp[p])
 
         #If two-phase equilibrium not found, two possibilities - precipitates are unstable or equilibrium calculations didn't converge
         #We try to avoid this as much as possible to where if precipitates are unstable, then attempt to get a growth rate from the nearest composition on the phase boundary
